@@ -122,50 +122,48 @@ def _maintenance(ctx, f: Func, nd: Node) -> Set[str]:
 
 def explore_after_mutation(ctx, f: Func, g: CFG, ne: Dict[int, Set[str]], start: int, own_exc: bool,
                            tracked: Set[str]):
-    """Path-sensitive search for an exit reachable after `start` without index
-    maintenance while the index may still be valid.  Returns list of
-    (exit kind, path) witnesses (at most one per exit kind)."""
+    """Path-sensitive search, from the function entry, for an exit that is
+    reachable after the mutation node `start` executed (own_exc: after it failed
+    midway) with no index maintenance afterwards and the index possibly valid.
+
+    State = (node, facts over a few boolean atoms, dirty?, maintenance seen since
+    dirty).  Returns {exit kind: witness path} (at most one per kind)."""
     wit: Dict[str, List[int]] = {}
-    seen: Set[Tuple[int, FrozenSet]] = set()
-    init_facts: Dict[str, bool] = {}
-    # facts established by the guards dominating the mutation node
-    from ..logic import guards as _guards
-    for cond, pol in _guards(g.nodes[start].ast):
-        if hasattr(cond, "stmt"):
-            continue
-        fm = formula(cond)
-        if not pol:
-            fm = negate(fm)
-        if fm[0] == "lit" and fm[1].startswith("truthy(") and fm[1][7:-1] in tracked:
-            init_facts[fm[1][7:-1]] = fm[2]
-    stack: List[Tuple[int, Dict[str, bool], Tuple[int, ...], FrozenSet[str]]] = []
-    for t, lab in g.succ[start]:
-        if (lab == "exc") != own_exc:
-            continue
-        stack.append((t, dict(init_facts), (start, t), frozenset()))
-    budget = 200000
+    seen: Set[Tuple] = set()
+    # (node, facts, dirty, seen maintenance, path since dirty)
+    stack: List[Tuple[int, Dict[str, bool], bool, FrozenSet[str], Tuple[int, ...]]] = [
+        (g.entry, {}, False, frozenset(), ())]
+    budget = 400000
     while stack:
         budget -= 1
         if budget < 0:
             raise AnalysisError("C06.R4", f"state explosion in {f.qual}")
-        nid, facts, path, seenm = stack.pop()
-        key = (nid, frozenset(facts.items()) | frozenset(("m:" + m, True) for m in seenm))
+        nid, facts, dirty, seenm, path = stack.pop()
+        key = (nid, frozenset(facts.items()), dirty, seenm)
         if key in seen:
             continue
         seen.add(key)
         nd = g.nodes[nid]
         if nid in (g.exit, g.rexit):
-            if facts.get("self._index.valid") is False:
-                continue
-            kind = "normal" if nid == g.exit else "raise"
-            wit.setdefault(kind, list(path))
-            continue
-        m = _maintenance(ctx, f, nd) if nd.ast is not None else set()
-        seenm2 = seenm | m
-        if m & FULL_MAINT or {"remove", "update"} <= seenm2:
+            if dirty and facts.get("self._index.valid") is not False:
+                kind = "normal" if nid == g.exit else "raise"
+                wit.setdefault(kind, list(path) + [nid])
             continue
         facts2 = dict(facts)
+        seenm2 = seenm
+        dirty2 = dirty
         a = nd.ast
+        if nid != start and nd.ast is not None:
+            m = _maintenance(ctx, f, nd)
+            if m:
+                seenm2 = seenm | m
+                if m & FULL_MAINT or {"remove", "update"} <= seenm2:
+                    dirty2 = False
+                    seenm2 = frozenset()
+                    if m & {"invalidate"}:
+                        facts2["self._index.valid"] = False
+                    elif m & {"build", "_reset"}:
+                        facts2["self._index.valid"] = True
         if nd.kind == "stmt" and isinstance(a, ast.AugAssign) and isinstance(a.target, ast.Name) \
                 and isinstance(a.op, ast.Add):
             facts2[a.target.id] = True
@@ -175,6 +173,7 @@ def explore_after_mutation(ctx, f: Func, g: CFG, ne: Dict[int, Set[str]], start:
                     facts2.pop(t_.id, None)
                     if isinstance(a.value, ast.Constant):
                         facts2[t_.id] = bool(a.value.value)
+        path2 = path + (nid,) if dirty2 else ()
         if nd.kind == "test":
             fm = formula(a.test)
             ats: Set[str] = set()
@@ -188,12 +187,24 @@ def explore_after_mutation(ctx, f: Func, g: CFG, ne: Dict[int, Set[str]], start:
                 val = _eval3(fm, fx)
                 for t, lab in g.succ[nid]:
                     if lab == "exc":
-                        stack.append((t, fx, path + (t,), seenm2))
+                        stack.append((t, fx, dirty2, seenm2, path2))
                     elif val is None or (lab == "true") == val:
-                        stack.append((t, fx, path + (t,), seenm2))
+                        stack.append((t, fx, dirty2, seenm2, path2))
             continue
         for t, lab in g.succ[nid]:
-            stack.append((t, facts2, path + (t,), seenm2))
+            if nid == start:
+                if lab == "exc":
+                    if own_exc:
+                        stack.append((t, facts2, True, frozenset(), (nid,)))
+                    else:
+                        stack.append((t, facts2, dirty2, seenm2, path2))
+                else:
+                    if own_exc:
+                        stack.append((t, facts2, dirty2, seenm2, path2))
+                    else:
+                        stack.append((t, facts2, True, frozenset(), (nid,)))
+            else:
+                stack.append((t, facts2, dirty2, seenm2, path2))
     return wit
 
 
@@ -231,7 +242,9 @@ def maintenance_on_every_exit(ctx):
             if is_mutating(direct):
                 muts.append((nd, direct))
         tracked = {"self._auto_index", "self._index.valid"} | {
-            n.target.id for n in walk_local(f.node) if isinstance(n, ast.AugAssign) and isinstance(n.target, ast.Name)}
+            n.target.id for n in walk_local(f.node) if isinstance(n, ast.AugAssign) and isinstance(n.target, ast.Name)} | {
+            t.id for n in walk_local(f.node) if isinstance(n, ast.Assign) and isinstance(n.value, ast.Constant)
+            and isinstance(n.value.value, bool) for t in n.targets if isinstance(t, ast.Name)}
         for nd, es in muts:
             n_mut += 1
             what = first_line(nd.ast, 70)
